@@ -40,7 +40,7 @@ CLAIMED = {
              note="Trusted base: z3 (QF_NRA for K1), symx, stubs in the evidence file; EOM configuration numbers concrete; emulator equivalence outside the claim."),
  "C05": dict(text="Bounded symbolic model checking of the emulated Hamiltonian: the real QutipEmulator.from_sequence / __init__, "
              "Hamiltonian.__init__ / set_config / _extract_samples / _construct_hamiltonian / get_hamiltonian (over the real sampler and "
-             "to_nested_dict) run on 9 (quick) / 13 (thorough) programs - one to three bases, global/local/multi-target channels, DMM with symbolic "
+             "to_nested_dict) run on 10 (quick) / 15 (thorough) programs - one to three bases, global/local/multi-target channels, DMM with symbolic "
              "weights, SLM mask in Ising and XY mode, 3D register with a tilted magnetic field, permuted atom ids, EOM block, phase shifts - with "
              "concrete timelines/phases/geometry and symbolic amplitudes, detunings and detuning-map weights; for every integer t in [0,T) every "
              "entry of H(t) is compared with the documented formula built from the schedule's slots (state ordering, tensor order, "
